@@ -1,4 +1,4 @@
-use crate::{BumpScope, align_pos, settings::BumpAllocatorSettings};
+use crate::{BumpScope, align_pos, raw_bump::RawChunk, settings::BumpAllocatorSettings};
 
 /// Aligns the bump pointer on drop.
 ///
@@ -10,6 +10,12 @@ where
     S: BumpAllocatorSettings,
 {
     pub(crate) scope: &'b mut BumpScope<'a, A, S>,
+
+    /// The chunk that was current when the guard was created.
+    ///
+    /// If the scope is a by-value copy (`by_value`) that moved on to another chunk,
+    /// the scope it was copied from still points at this one.
+    start: RawChunk<A, S>,
 }
 
 impl<A, S> Drop for BumpAlignGuard<'_, '_, A, S>
@@ -18,11 +24,24 @@ where
 {
     #[inline(always)]
     fn drop(&mut self) {
-        if let Some(chunk) = self.scope.raw.chunk.get().as_non_dummy() {
-            let pos = chunk.pos().addr().get();
-            let addr = align_pos(S::UP, S::MIN_ALIGN, pos);
-            unsafe { chunk.set_pos_addr(addr) };
+        let current = self.scope.raw.chunk.get();
+        align_chunk(current);
+
+        if self.start.header != current.header {
+            align_chunk(self.start);
         }
+    }
+}
+
+#[inline(always)]
+fn align_chunk<A, S>(chunk: RawChunk<A, S>)
+where
+    S: BumpAllocatorSettings,
+{
+    if let Some(chunk) = chunk.as_non_dummy() {
+        let pos = chunk.pos().addr().get();
+        let addr = align_pos(S::UP, S::MIN_ALIGN, pos);
+        unsafe { chunk.set_pos_addr(addr) };
     }
 }
 
@@ -32,6 +51,7 @@ where
 {
     #[inline(always)]
     pub(crate) fn new(scope: &'b mut BumpScope<'a, A, S>) -> Self {
-        Self { scope }
+        let start = scope.raw.chunk.get();
+        Self { scope, start }
     }
 }
